@@ -23,7 +23,8 @@ Record InvA (s : state) : Prop := mkInvA {
   a_wids : forall w, In w (wids s) <-> In w (tids s) /\ tk (th s w) = KWorker;
   a_wpc : forall w, wpc_of s w <> WNone <-> In w (wids s);
   a_nodupw : NoDup (wids s);
-  a_act : forall t, act s t <> ANone -> t = own s \/ exists i last, wpc_of s t = WWork i last;
+  a_act : forall t, act s t <> ANone -> t = own s \/ (exists i last, wpc_of s t = WWork i last) \/
+            (tk (th s t) = KHelper /\ (tp (th s t) = TRun \/ tp (th s t) = TExiting));
   a_lock : forall t, lock s = Some t -> exists p, pl s = PLive p
 }.
 
@@ -52,9 +53,18 @@ Definition wit4 (s : state) (p : pool) (w : nat) : Prop :=
   active_pc (wpc_of s w) = true \/
   (wpc_of s w = WLoop /\ kick_due s w /\ (~ In w (pidle p) \/ wkicked (wk s w) = true)).
 
+(* the owner's thread_needed event is posted, popped (handler not yet in its critical section) or owed *)
+Definition evneeded_due (s : state) : Prop :=
+  In EvNeeded (opend s ++ obatch s) \/ ohst s = HPop EvNeeded \/ In (FPostO EvNeeded) (todo s).
+
+(* ... and its handler is going to start a thread: nobody is idle, started_threads < max_threads, the pool has not
+   been put (a foreign submitter found the pool without a thread to kick) *)
+Definition needed_wit (s : state) (p : pool) : Prop :=
+  evneeded_due s /\ pidle p = [] /\ pstarted p < pmax p /\ pshut p = false.
+
 (* W4: work queued => somebody is going to look at the queue *)
 Definition W4 (s : state) : Prop := forall p, pl s = PLive p -> pitems p <> [] ->
-  In FCreate (todo s) \/ exists w, In w (wids s) /\ wit4 s p w.
+  In FCreate (todo s) \/ (exists w, In w (wids s) /\ wit4 s p w) \/ needed_wit s p.
 
 Definition evwork_due (s : state) : Prop :=
   In EvWork (opend s ++ obatch s) \/ ohst s = HPop EvWork \/ In (FPostO EvWork) (todo s).
